@@ -1,6 +1,122 @@
 import DriverOps.Common
-/- driver ops with prefix "cv." (owned by the Curves model) -/
+/- driver ops with prefix "cv." (owned by the Curves model)
+
+  curve  := [orig, session, unit, value, descr, [cell,…]]           (cells are strings)
+  state  := {"tr": bool, "init": [curve,…]}
+  op     := ["append_curve", m, u, v, d, cells] | ["insert_curve", ix, m, u, v, d, cells]
+          | ["append_item", curve, isCurve] | ["insert_item", ix, curve, isCurve] | ["replace_item", ix, curve, isCurve]
+          | ["delete_ix", ix] | ["delete_mnem", m]
+          | ["update_ix", ix, cells|null, unit|null, descr|null, value|null]
+          | ["update_mnem", m, cells|null, unit|null, descr|null, value|null]
+          | ["setitem_curve", key, curve] | ["setitem_data", key, cells]
+          | ["set_data", [[cell,…],…] (rows), [name,…]|null, truncate]
+
+  cv.run  {"tr","init","ops":[op,…],"probes":[str|int,…]}
+          -> [ per step {"r": "ok"|"KeyError"|"ValueError"|"IndexError"|"AssertionError",
+                         "curves":[curve,…], "wf":bool, "spec":[[orig,unit,value,descr,cells],…]  (specRun),
+                         "absok": bool (abs state = spec), "data": rows|"ValueError", "index": cells|"IndexError",
+                         "items":[[key,cells],…], "get":[cells|"KeyError"|"IndexError",…]} ]
+  cv.run2 {"a":state,"b":state,"ops":[[0|1, op],…]} -> [ per step {"a":[curve,…],"b":[curve,…]} ]
+-/
 open Lean Lasio
 
-def handleCurves (op : String) (j : Json) : Except String Json :=
-  throw s!"op {op} not implemented"
+def cvCells (j : Json) : Except String (List Cell) := getList getS j
+def cvCellsJ (l : List Cell) : Json := jlist jstr l
+
+def cvOpt {α} (f : Json → Except String α) (j : Json) : Except String (Option α) :=
+  match j with
+  | .null => pure none
+  | x => do pure (some (← f x))
+
+def cvCurve (j : Json) : Except String (Item × List Cell) := do
+  let a ← arr j
+  if a.size < 6 then throw "curve: 6 fields expected"
+  pure (⟨← getS a[0]!, ← getS a[1]!, ← getS a[2]!, ← getS a[3]!, ← getS a[4]!⟩, ← cvCells a[5]!)
+
+def cvState (j : Json) : Except String LasCurves := do
+  let tr ← (← fld j "tr").getBool?
+  let cs ← getList cvCurve (← fld j "init")
+  pure ⟨⟨cs.map (·.1), tr⟩, cs.map (·.2)⟩
+
+def cvOp (j : Json) : Except String CurveOp := do
+  let a ← arr j
+  let name ← (a[0]!).getStr?
+  match name with
+  | "append_curve" => pure (.appendCurve (← getS a[1]!) (← getS a[2]!) (← getS a[3]!) (← getS a[4]!) (← cvCells a[5]!))
+  | "insert_curve" =>
+    pure (.insertCurve (← (a[1]!).getInt?) (← getS a[2]!) (← getS a[3]!) (← getS a[4]!) (← getS a[5]!) (← cvCells a[6]!))
+  | "append_item" => do
+    let c ← cvCurve a[1]!
+    pure (.appendItem ⟨c.1, c.2, ← (a[2]!).getBool?⟩)
+  | "insert_item" => do
+    let c ← cvCurve a[2]!
+    pure (.insertItem (← (a[1]!).getInt?) ⟨c.1, c.2, ← (a[3]!).getBool?⟩)
+  | "replace_item" => do
+    let c ← cvCurve a[2]!
+    pure (.replaceItem (← (a[1]!).getInt?) ⟨c.1, c.2, ← (a[3]!).getBool?⟩)
+  | "delete_ix" => pure (.deleteIx (← (a[1]!).getInt?))
+  | "delete_mnem" => pure (.deleteMnem (← getS a[1]!))
+  | "update_ix" =>
+    pure (.updateIx (← (a[1]!).getInt?) (← cvOpt cvCells a[2]!) (← cvOpt getS a[3]!) (← cvOpt getS a[4]!) (← cvOpt getS a[5]!))
+  | "update_mnem" =>
+    pure (.updateMnem (← getS a[1]!) (← cvOpt cvCells a[2]!) (← cvOpt getS a[3]!) (← cvOpt getS a[4]!) (← cvOpt getS a[5]!))
+  | "setitem_curve" => do
+    let c ← cvCurve a[2]!
+    pure (.setItemCurve (← getS a[1]!) c.1 c.2)
+  | "setitem_data" => pure (.setItemData (← getS a[1]!) (← cvCells a[2]!))
+  | "set_data" =>
+    pure (.setData (← getList cvCells a[1]!) (← cvOpt (getList getS) a[2]!) (← (a[3]!).getBool?))
+  | _ => throw s!"unknown curve op {name}"
+
+def cvResJ (r : CvResult) : Json := Json.str (match r with
+  | .ok => "ok" | .keyError => "KeyError" | .valueError => "ValueError" | .indexError => "IndexError"
+  | .assertionError => "AssertionError")
+
+def cvDump (L : LasCurves) : Json :=
+  Json.arr ((List.range L.sec.items.length).map fun i =>
+    match L.sec.items[i]? with
+    | some it => Json.arr #[jstr it.orig, jstr it.session, jstr it.unit, jstr it.value, jstr it.descr,
+        match L.data[i]? with | some d => cvCellsJ d | none => Json.null]
+    | none => Json.null).toArray
+
+def cvSpecJ (S : SpecCurves) : Json :=
+  jlist (fun c => Json.arr #[jstr c.orig, jstr c.unit, jstr c.value, jstr c.descr, cvCellsJ c.data]) S
+
+def cvExc (r : Except CvResult (List Cell)) : Json :=
+  match r with | .ok d => cvCellsJ d | .error e => cvResJ e
+
+def handleCurves (op : String) (j : Json) : Except String Json := do
+  match op with
+  | "cv.run" =>
+    let L0 ← cvState j
+    let ops ← getList cvOp (← fld j "ops")
+    let probes ← getList getKey (← fld j "probes")
+    let mut L := L0
+    let mut S := L0.abs
+    let mut out : Array Json := #[]
+    for o in ops do
+      let (L', r) := L.step o
+      S := specStep L.keys S o
+      L := L'
+      out := out.push (Json.mkObj [
+        ("r", cvResJ r), ("curves", cvDump L), ("wf", Json.bool (decide L.WF)), ("spec", cvSpecJ S),
+        ("absok", Json.bool (decide (L.abs = S))),
+        ("data", match L.dataView with | .ok rows => jlist cvCellsJ rows | .error e => cvResJ e),
+        ("index", cvExc L.index),
+        ("items", jlist (fun p => Json.arr #[jstr p.1, cvCellsJ p.2]) L.itemsView),
+        ("get", jlist (fun k => cvExc (L.getitem k)) probes)])
+    pure (Json.arr out)
+  | "cv.run2" =>
+    let a ← cvState (← fld j "a")
+    let b ← cvState (← fld j "b")
+    let ops ← getList (fun o => do
+      let p ← arr o
+      let w ← (p[0]!).getInt?
+      pure (decide (w ≠ 0), ← cvOp p[1]!)) (← fld j "ops")
+    let mut P := (a, b)
+    let mut out : Array Json := #[]
+    for o in ops do
+      P := cvStep2 P o
+      out := out.push (Json.mkObj [("a", cvDump P.1), ("b", cvDump P.2)])
+    pure (Json.arr out)
+  | _ => throw s!"op {op} not implemented"
